@@ -56,6 +56,16 @@ var handPairs = []handPair{
 		new: map[string]string{"ids.frugal": "typedef i32 Id\n", "model.frugal": "include \"ids.frugal\"\ntypedef list<i32> Handles\n", "api.frugal": "include \"model.frugal\"\nstruct S {\n  1: model.Handles hs,\n}\n"},
 	},
 	{
+		name: "service re-parented onto a same-named service of another include", sig: "C18:missed-breaking:change-extends:same-short-name", wantFail: true, root: "root.frugal",
+		old: map[string]string{"core.frugal": "namespace * core\n\nservice Base {\n    void ping(),\n    i32 version(),\n}\n", "legacy.frugal": "namespace * legacy\n\n// An unrelated service that happens to share the name of core.Base.\nservice Base {\n    string describe(1: string what),\n}\n", "root.frugal": "namespace * root\n\ninclude \"core.frugal\"\ninclude \"legacy.frugal\"\n\nstruct Item {\n    1: i64 id,\n    2: optional string label,\n}\n\nservice Store extends core.Base {\n    Item get(1: i64 id),\n    void put(1: Item item),\n}\n"},
+		new: map[string]string{"core.frugal": "namespace * core\n\nservice Base {\n    void ping(),\n    i32 version(),\n}\n", "legacy.frugal": "namespace * legacy\n\n// An unrelated service that happens to share the name of core.Base.\nservice Base {\n    string describe(1: string what),\n}\n", "root.frugal": "namespace * root\n\ninclude \"core.frugal\"\ninclude \"legacy.frugal\"\n\nstruct Item {\n    1: i64 id,\n    2: optional string label,\n}\n\nservice Store extends legacy.Base {\n    Item get(1: i64 id),\n    void put(1: Item item),\n}\n"},
+	},
+	{
+		name: "diamond: the first-visited parent drops the shared include, the shared include has a retyped field", sig: "C18:missed-breaking:in-shared-include-dropped-by-one-parent:retype-field", wantFail: true, root: "root.frugal",
+		old: map[string]string{"common.frugal": "namespace * common\n\nstruct Money {\n    1: i32 amount,\n    2: string currency,\n}\n", "billing.frugal": "namespace * billing\n\ninclude \"common.frugal\"\n\nstruct Invoice {\n    1: i64 id,\n    2: optional common.Money total,\n}\n", "orders.frugal": "namespace * orders\n\ninclude \"common.frugal\"\n\nstruct Order {\n    1: i64 id,\n    2: common.Money price,\n}\n", "root.frugal": "namespace * root\n\ninclude \"billing.frugal\"\ninclude \"orders.frugal\"\n\nservice Shop {\n    orders.Order order(1: i64 id),\n    billing.Invoice invoice(1: i64 orderId),\n}\n"},
+		new: map[string]string{"common.frugal": "namespace * common\n\nstruct Money {\n    1: i64 amount,\n    2: string currency,\n}\n", "billing.frugal": "namespace * billing\n\nstruct Invoice {\n    1: i64 id,\n}\n", "orders.frugal": "namespace * orders\n\ninclude \"common.frugal\"\n\nstruct Order {\n    1: i64 id,\n    2: common.Money price,\n}\n", "root.frugal": "namespace * root\n\ninclude \"billing.frugal\"\ninclude \"orders.frugal\"\n\nservice Shop {\n    orders.Order order(1: i64 id),\n    billing.Invoice invoice(1: i64 orderId),\n}\n"},
+	},
+	{
 		name: "last default field removed", sig: "C18:missed-breaking:remove-field", wantFail: true, root: "a.thrift",
 		old: map[string]string{"a.thrift": "struct S {\n  1: i32 a,\n  2: optional i32 b,\n  3: string c,\n}\n"},
 		new: map[string]string{"a.thrift": "struct S {\n  1: i32 a,\n  2: optional i32 b,\n}\n"},
